@@ -2,6 +2,7 @@ package token
 
 import (
 	"strings"
+	"unicode/utf8"
 )
 
 func init() { verifRegister("VerifC12_KWindow", VerifC12_KWindow) }
@@ -60,6 +61,27 @@ func VerifC12_KWindow() {
 	usePeek := vndBool("peek")
 	whole := c12wRun(NewScannerString("f", src), tokLen, usePeek, n+1)
 	win := c12wRun(newScannerBuf("f", strings.NewReader(src), make([]byte, w)), tokLen, usePeek, n+1)
+	// independent reference: the runes of the source are what utf8.DecodeRuneInString yields, up to
+	// the first invalid sequence (which is the only thing that may stop the scanner)
+	pos := 0
+	for i, ev := range whole {
+		if pos >= len(src) {
+			vAssert(ev.err, "the scanner reports the end of the source, not a rune")
+			break
+		}
+		r, n := utf8.DecodeRuneInString(src[pos:])
+		bad := r == utf8.RuneError && n == 1
+		vAssert(ev.err == bad, "the scanner stops exactly at an invalid UTF-8 sequence and nowhere else (a VALID U+FFFD is a rune like any other)")
+		if bad {
+			break
+		}
+		vAssert(ev.c == r && ev.n == n, "rune and width are the decoder's")
+		if usePeek {
+			vAssert(ev.pok && ev.peek == r, "Peek announces the rune that ScanRune then delivers")
+		}
+		pos += n
+		_ = i
+	}
 	vAssert(len(whole) == len(win), "the same number of runes is delivered whatever the window size")
 	for i := range whole {
 		a, b := whole[i], win[i]
